@@ -16,7 +16,10 @@ VIAS = ["plain", "plain", "plain", "call", "ignore_result", "force_local", "part
 
 # ----------------------------------------------------------------------------- generation
 
-def gen_history(seed, max_edits=8, features=None, inproc_only=False, deps_ops=True):
+DISCIPLINE = [True]     # False: edits are applied without bumping explicit versions (deps-only histories of C14)
+
+
+def gen_history(seed, max_edits=8, features=None, inproc_only=False, deps_ops=True, discipline=True):
     rng = core.stream(seed, "gen")
     F = dict(features or {})
     # swarm: switch program features on/off per run
@@ -33,7 +36,11 @@ def gen_history(seed, max_edits=8, features=None, inproc_only=False, deps_ops=Tr
     def roots(p):
         return [n["id"] for n in p["nodes"] if n["kind"] == "memento" and n["explicit"] is None]
 
+    DISCIPLINE[0] = discipline
+
     def add_calls(p, n):
+        if not discipline:
+            return      # a stale explicitly versioned function would make every value / refusal expectation meaningless
         rs = roots(p)
         for _ in range(n):
             nid = rs[0] if rng.random() < 0.6 else rs[rng.randrange(len(rs))]
@@ -42,6 +49,21 @@ def gen_history(seed, max_edits=8, features=None, inproc_only=False, deps_ops=Tr
                 st["fnargs"] = list(p["nodes"][nid]["fparams"])
             steps.append(st)
     add_calls(cur, rng.randrange(1, 4))
+    def deps_step(p):
+        """all functions in definition order, or (deps-only histories) a drawn subset in a drawn order: whether a report is
+        refreshed must not depend on which other function was asked first"""
+        if discipline or rng.random() < 0.3:
+            return {"op": "deps"}
+        mem = [n["id"] for n in p["nodes"] if n["kind"] == "memento"]
+        expl = [i for i in mem if p["nodes"][i]["explicit"] is not None]
+        rng.shuffle(mem)
+        pick = mem[:rng.randrange(1, len(mem) + 1)]
+        if expl and rng.random() < 0.6:
+            e = expl[rng.randrange(len(expl))]
+            pick = [e] + [i for i in pick if i != e][:rng.randrange(0, 2)]
+        return {"op": "deps", "order": pick}
+    if not discipline:
+        steps.append({"op": "deps"})
     for _ in range(rng.randrange(1, max_edits + 1)):
         e = progen.gen_edit(rng, cur, counter)
         counter += 1
@@ -53,20 +75,26 @@ def gen_history(seed, max_edits=8, features=None, inproc_only=False, deps_ops=Tr
             delivery = "inproc-def"
         steps.append({"op": "edit", "edit": e, "delivery": delivery, "n": counter})
         cur, _ = apply_with_discipline(cur, e, counter)
-        if deps_ops and rng.random() < 0.3:
-            steps.append({"op": "deps"})
+        if deps_ops and rng.random() < (0.3 if discipline else 0.8):
+            steps.append(deps_step(cur))
         add_calls(cur, rng.randrange(1, 4))
         if rng.random() < 0.15:
             steps.append({"op": "restart"})
             add_calls(cur, 1)
     if deps_ops:
         steps.append({"op": "deps"})
-    return {"seed": seed, "prog": prog, "steps": steps, "cache": rng.random() < 0.5}
+    DISCIPLINE[0] = True
+    case = {"seed": seed, "prog": prog, "steps": steps, "cache": rng.random() < 0.5}
+    if not discipline:
+        case["no_discipline"] = True
+    return case
 
 
 def apply_with_discipline(prog, e, n):
     """Apply an edit; bump explicit versions whose closure it touches. Returns (prog, touched units)."""
     p, touched = progen.apply_edit(prog, e)
+    if not DISCIPLINE[0]:
+        return p, touched
     tn = set(u[1] for u in touched if u[0] == "n")
     for u in touched:
         if u[0] == "g":
@@ -184,10 +212,11 @@ def do_call(prog, step, memo, side):
     return outs
 
 
-def do_deps(prog):
-    """C14: what the library reports for every memento function of the program."""
+def do_deps(prog, order=None):
+    """C14: what the library reports for every memento function of the program (or for the given ones, in that order)."""
     rep = {}
-    for nd in prog["nodes"]:
+    nodes = prog["nodes"] if order is None else [prog["nodes"][i] for i in order if i < len(prog["nodes"])]
+    for nd in nodes:
         if nd["kind"] != "memento":
             continue
         fn = getattr(sys.modules[modname(prog, nd["module"])], nd["name"])
@@ -225,7 +254,7 @@ def lifetime_body(root, case, prog, steps, memo, li, emit):
                 continue
             emit({"si": si, "call": do_call(cur, st, memo, side)})
         elif st["op"] == "deps" and memo:
-            emit({"si": si, "deps": do_deps(cur)})
+            emit({"si": si, "deps": do_deps(cur, st.get("order"))})
 
 
 def run_lifetime(root, case, prog, steps, memo, li):
@@ -253,7 +282,13 @@ def run_lifetime_fresh(root, case, prog, steps, memo, li):
     if r.returncode != 0 or not os.path.exists(op):
         raise core.HarnessError("fresh-interpreter lifetime failed: %s" % (r.stdout + r.stderr)[-1500:])
     raw = open(op).read().replace(root, "<root>")
-    return [json.loads(line) for line in raw.splitlines()], 0
+    evs = [json.loads(line) for line in raw.splitlines()]
+    for e in evs:
+        if isinstance(e, dict) and "HARNESS" in e:
+            if e.get("lib"):
+                raise core.LibraryRaised(e.get("exc", "?"), e["HARNESS"])
+            raise core.HarnessError("fresh-interpreter lifetime failed: " + e["HARNESS"])
+    return evs, 0
 
 
 def qn(prog, nid):
@@ -282,6 +317,9 @@ def execute_history(case, want):
 
     def bump(k, n=1):
         stats[k] = stats.get(k, 0) + n
+    DISCIPLINE[0] = not case.get("no_discipline")
+    if case.get("no_discipline"):
+        bump("histories_without_explicit_version_bumps")
     try:
         os.makedirs(root + "/src")
         prog = case["prog"]
@@ -424,4 +462,5 @@ def execute_history(case, want):
                 break
     finally:
         shutil.rmtree(root, ignore_errors=True)
+        DISCIPLINE[0] = True
     return viol[:1], log, stats
